@@ -106,6 +106,48 @@ mod verif_block_leaves_as {
         match p { Some(p) => assert!(x > 0 && val(p) == x - 1, "previous is x-1"), None => assert!(x == 0, "previous is None only at the minimum") }
     }}
 
+    // ---------------- the Block default methods as compiled for AsBlock / AsRange -----------
+    // (the Verus unit chain_query proves the trait's DEFAULT bodies; an implementor may override them - these
+    // harnesses pin what the compiled methods of the two implementors compute, for all pairs of blocks)
+    //@harness bl_as_block_defaults K fn=<AsBlock_as_Block>::{contains,intersects,is_encompassed,is_equivalent,bounds,sum}
+    verif_harness!{ bl_as_block_defaults; |a: u32, b: u32, c: u32, d: u32, x: u32| {
+        let s = AsBlock::from((asn(a), asn(b)));
+        let o = AsBlock::from((asn(c), asn(d)));
+        assert!(<AsBlock as Block>::contains(&s, asn(x)) == (a <= x && x <= b), "contains(x) == lo <= x <= hi");
+        assert!(<AsBlock as Block>::intersects(&s, &o) == (a <= d && b >= c), "intersects == the intervals meet");
+        assert!(<AsBlock as Block>::is_encompassed(&s, &o) == (c <= a && d >= b), "is_encompassed == interval inclusion");
+        assert!(<AsBlock as Block>::is_equivalent(&s, &o) == (a == c && b == d), "is_equivalent == same bounds");
+        assert!(<AsBlock as Block>::bounds(&s) == (asn(a), asn(b)), "bounds");
+        assume(a <= b && c <= d);
+        match <AsBlock as Block>::sum(&s, &o) {
+            Some(u) => {
+                let touch = (a <= d && b >= c) || (b < u32::MAX && b + 1 == c) || (d < u32::MAX && d + 1 == a);
+                assert!(touch, "sum is Some only for overlapping or adjacent blocks");
+                assert!(val(u.min()) == a.min(c) && val(u.max()) == b.max(d), "sum spans both");
+            }
+            None => assert!(!((a <= d && b >= c) || (b < u32::MAX && b + 1 == c) || (d < u32::MAX && d + 1 == a)), "sum is None only for separated blocks"),
+        }
+    }}
+    //@harness bl_as_range_defaults K fn=<AsRange_as_Block>::{contains,intersects,is_encompassed,is_equivalent,bounds,sum}
+    verif_harness!{ bl_as_range_defaults; |a: u32, b: u32, c: u32, d: u32, x: u32| {
+        let s = AsRange::new(asn(a), asn(b));
+        let o = AsRange::new(asn(c), asn(d));
+        assert!(<AsRange as Block>::contains(&s, asn(x)) == (a <= x && x <= b), "contains(x) == lo <= x <= hi");
+        assert!(<AsRange as Block>::intersects(&s, &o) == (a <= d && b >= c), "intersects == the intervals meet");
+        assert!(<AsRange as Block>::is_encompassed(&s, &o) == (c <= a && d >= b), "is_encompassed == interval inclusion");
+        assert!(<AsRange as Block>::is_equivalent(&s, &o) == (a == c && b == d), "is_equivalent == same bounds");
+        assert!(<AsRange as Block>::bounds(&s) == (asn(a), asn(b)), "bounds");
+        assume(a <= b && c <= d);
+        match <AsRange as Block>::sum(&s, &o) {
+            Some(u) => {
+                let touch = (a <= d && b >= c) || (b < u32::MAX && b + 1 == c) || (d < u32::MAX && d + 1 == a);
+                assert!(touch, "sum is Some only for overlapping or adjacent blocks");
+                assert!(val(u.min()) == a.min(c) && val(u.max()) == b.max(d), "sum spans both");
+            }
+            None => assert!(!((a <= d && b >= c) || (b < u32::MAX && b + 1 == c) || (d < u32::MAX && d + 1 == a)), "sum is None only for separated blocks"),
+        }
+    }}
+
     // ---------------- item counts ---------------------------------------------------------
     /// |[a,b]| as a mathematical integer
     fn card(a: u32, b: u32) -> u64 { if a <= b { (b as u64) - (a as u64) + 1 } else { 0 } }
@@ -128,6 +170,40 @@ mod verif_block_leaves_as {
         let n = AsBlock::Range(AsRange::new(asn(a), asn(b))).asn_count();
         // no panic for any well-formed block; exact where representable, never an under-count otherwise
         assert!(n as u64 == card(a, b) || (card(a, b) > u32::MAX as u64 && n == u32::MAX), "count exact, or saturated when 2^32 is not representable");
+    }}
+
+    // ---------------- the Block default methods as compiled for IpBlock / AddressRange ------
+    //@harness bl_ip_block_defaults K fn=<IpBlock_as_Block>::{contains,intersects,is_encompassed,is_equivalent,bounds}
+    verif_harness!{ bl_ip_block_defaults; |a: u128, b: u128, la: u8, pa: bool, c: u128, d: u128, lc: u8, pc: bool, x: u128| {
+        // both variants of both operands: a prefix of any length, or a range with any bounds
+        assume(la <= 128 && lc <= 128);
+        let s = if pa { IpBlock::Prefix(Prefix::new(ad(a), la)) } else { IpBlock::Range(AddressRange::new(ad(a), ad(b))) };
+        let o = if pc { IpBlock::Prefix(Prefix::new(ad(c), lc)) } else { IpBlock::Range(AddressRange::new(ad(c), ad(d))) };
+        let (slo, shi, olo, ohi) = (val(s.min()), val(s.max()), val(o.min()), val(o.max()));
+        assert!(<IpBlock as Block>::contains(&s, ad(x)) == (slo <= x && x <= shi), "contains(x) == lo <= x <= hi");
+        assert!(<IpBlock as Block>::intersects(&s, &o) == (slo <= ohi && shi >= olo), "intersects == the intervals meet");
+        assert!(<IpBlock as Block>::is_encompassed(&s, &o) == (olo <= slo && ohi >= shi), "is_encompassed == interval inclusion");
+        assert!(<IpBlock as Block>::is_equivalent(&s, &o) == (slo == olo && shi == ohi), "is_equivalent == same bounds");
+        assert!(<IpBlock as Block>::bounds(&s) == (s.min(), s.max()), "bounds");
+    }}
+    //@harness bl_addr_range_defaults K fn=<AddressRange_as_Block>::{contains,intersects,is_encompassed,is_equivalent,bounds,sum}
+    verif_harness!{ bl_addr_range_defaults; |a: u128, b: u128, c: u128, d: u128, x: u128| {
+        let s = AddressRange::new(ad(a), ad(b));
+        let o = AddressRange::new(ad(c), ad(d));
+        assert!(<AddressRange as Block>::contains(&s, ad(x)) == (a <= x && x <= b), "contains(x) == lo <= x <= hi");
+        assert!(<AddressRange as Block>::intersects(&s, &o) == (a <= d && b >= c), "intersects == the intervals meet");
+        assert!(<AddressRange as Block>::is_encompassed(&s, &o) == (c <= a && d >= b), "is_encompassed == interval inclusion");
+        assert!(<AddressRange as Block>::is_equivalent(&s, &o) == (a == c && b == d), "is_equivalent == same bounds");
+        assert!(<AddressRange as Block>::bounds(&s) == (ad(a), ad(b)), "bounds");
+        assume(a <= b && c <= d);
+        match <AddressRange as Block>::sum(&s, &o) {
+            Some(u) => {
+                let touch = (a <= d && b >= c) || (b < u128::MAX && b + 1 == c) || (d < u128::MAX && d + 1 == a);
+                assert!(touch, "sum is Some only for overlapping or adjacent blocks");
+                assert!(val(u.min()) == a.min(c) && val(u.max()) == b.max(d), "sum spans both");
+            }
+            None => assert!(!((a <= d && b >= c) || (b < u128::MAX && b + 1 == c) || (d < u128::MAX && d + 1 == a)), "sum is None only for separated blocks"),
+        }
     }}
 
     // ---------------- lo <= hi at the decoding boundary ------------------------------------
